@@ -82,7 +82,12 @@ type ETx = (u64, u64, u32, u32, u8);
 struct Exp {
     cells: Vec<Vec<ECell>>,
     txs: Vec<Vec<ETx>>,
+    /// get_transactions with group_by_transaction: (tx, block number, tx index, [(io type, io index)]) per object
+    #[serde(default)]
+    gtxs: Vec<Vec<EGTx>>,
 }
+type EGTx = (u64, u64, u32, Vec<(u8, u32)>);
+type CGTx = (Byte32, u64, u32, Vec<(u8, u32)>);
 #[derive(Deserialize)]
 struct Input {
     scripts: HashMap<String, ScriptD>,
@@ -201,6 +206,8 @@ struct Stats {
     prefix_hits: u64,
     nonempty: u64,
     mismatches: u64,
+    grouped: u64,
+    grouped_multi: u64,
 }
 
 fn search_key(w: &World, q: &Query, variant: u64) -> IndexerSearchKey {
@@ -305,6 +312,40 @@ fn page_txs(h: &IndexerHandle, w: &World, q: &Query, desc: bool, limit: u32, st:
     Ok((out, pages))
 }
 
+fn page_txs_grouped(h: &IndexerHandle, w: &World, q: &Query, desc: bool, limit: u32, st: &mut Stats) -> Result<(Vec<Vec<CGTx>>, u64), String> {
+    let mut out: Vec<Vec<CGTx>> = vec![];
+    let mut cursor: Option<JsonBytes> = None;
+    let mut pages = 0;
+    for round in 0..10_000u64 {
+        st.calls += 1;
+        let mut key = search_key(w, q, round + limit as u64);
+        key.group_by_transaction = Some(true);
+        let page = h
+            .get_transactions(key, if desc { IndexerOrder::Desc } else { IndexerOrder::Asc }, limit.into(), cursor.clone())
+            .map_err(|e| format!("get_transactions (grouped) error: {e:?}"))?;
+        if page.objects.is_empty() {
+            break;
+        }
+        if page.objects.len() > limit as usize {
+            return Err(format!("page of {} objects exceeds the limit {}", page.objects.len(), limit));
+        }
+        pages += 1;
+        out.push(vec![]);
+        for t in &page.objects {
+            match t {
+                IndexerTx::Grouped(x) => {
+                    let hsh: Byte32 = x.tx_hash.clone().into();
+                    let cells: Vec<(u8, u32)> = x.cells.iter().map(|(io, i)| (match io { IndexerCellType::Input => 0u8, IndexerCellType::Output => 1 }, (*i).into())).collect();
+                    out.last_mut().unwrap().push((hsh, x.block_number.into(), x.tx_index.into(), cells));
+                }
+                IndexerTx::Ungrouped(_) => return Err("ungrouped answer to a grouped query".into()),
+            }
+        }
+        cursor = Some(page.last_cursor);
+    }
+    Ok((out, pages))
+}
+
 struct Ctx<'a> {
     w: &'a World,
     inp: &'a Input,
@@ -360,7 +401,7 @@ fn battery(cx: &Ctx, h: &IndexerHandle, tip: usize, exp: &Exp, step: usize, full
         let want: Vec<CCell> = exp.cells[qi].iter().map(|(t, oi, bn, ti)| (tx_hash(*t), *oi, *bn, *ti)).collect();
         let show = |v: &Vec<CCell>| json!(v.iter().map(|(t, i, bn, ti)| json!([short(t), i, bn, ti])).collect::<Vec<_>>());
         let r = catch_unwind(AssertUnwindSafe(|| {
-            let mut st2 = Stats { queries: 0, calls: 0, multi_page: 0, prefix_hits: 0, nonempty: 0, mismatches: 0 };
+            let mut st2 = Stats { queries: 0, calls: 0, multi_page: 0, prefix_hits: 0, nonempty: 0, mismatches: 0, grouped: 0, grouped_multi: 0 };
             let mut bad = vec![];
             let mut res = vec![];
             for (desc, limit) in [(false, 100u32), (true, 100), (false, 1), (true, 1), (false, 2), (true, 2)] {
@@ -432,7 +473,7 @@ fn battery(cx: &Ctx, h: &IndexerHandle, tip: usize, exp: &Exp, step: usize, full
         let want: Vec<CTx> = exp.txs[qi].iter().map(|(t, bn, ti, ioi, io)| (tx_hash(*t), *bn, *ti, *ioi, *io)).collect();
         let show = |v: &Vec<CTx>| json!(v.iter().map(|(t, bn, ti, ioi, io)| json!([short(t), bn, ti, ioi, io])).collect::<Vec<_>>());
         let r = catch_unwind(AssertUnwindSafe(|| {
-            let mut st2 = Stats { queries: 0, calls: 0, multi_page: 0, prefix_hits: 0, nonempty: 0, mismatches: 0 };
+            let mut st2 = Stats { queries: 0, calls: 0, multi_page: 0, prefix_hits: 0, nonempty: 0, mismatches: 0, grouped: 0, grouped_multi: 0 };
             let mut res = vec![];
             for (desc, limit) in [(false, 100u32), (true, 100), (false, 1), (true, 1), (false, 2), (true, 2)] {
                 res.push((desc, limit, page_txs(h, cx.w, q, desc, limit, &mut st2)));
@@ -467,6 +508,61 @@ fn battery(cx: &Ctx, h: &IndexerHandle, tip: usize, exp: &Exp, step: usize, full
                 }
                 if !want.is_empty() {
                     st.nonempty += 1;
+                }
+            }
+        }
+        // the same query with group_by_transaction
+        if let Some(gw) = exp.gtxs.get(qi) {
+            let want: Vec<CGTx> = gw.iter().map(|(t, bn, ti, cells)| (tx_hash(*t), *bn, *ti, cells.clone())).collect();
+            let show = |v: &Vec<CGTx>| json!(v.iter().map(|(t, bn, ti, cells)| json!([short(t), bn, ti, cells])).collect::<Vec<_>>());
+            let r = catch_unwind(AssertUnwindSafe(|| {
+                let mut st2 = Stats { queries: 0, calls: 0, multi_page: 0, prefix_hits: 0, nonempty: 0, mismatches: 0, grouped: 0, grouped_multi: 0 };
+                let mut res = vec![];
+                for (desc, limit) in [(false, 100u32), (true, 100), (false, 1), (true, 1), (false, 2), (true, 2)] {
+                    res.push((desc, limit, page_txs_grouped(h, cx.w, q, desc, limit, &mut st2)));
+                }
+                (res, st2.calls)
+            }));
+            match r {
+                Err(_) => report("panic", Some(q), "panic inside get_transactions (grouped)".into(), show(&want), json!(null), st),
+                Ok((res, calls)) => {
+                    st.calls += calls;
+                    st.grouped += 1;
+                    if want.iter().any(|g| g.3.len() > 1) {
+                        st.grouped_multi += 1;
+                    }
+                    for (desc, limit, r) in res {
+                        match r {
+                            Err(e) => report("gtxs-error", Some(q), format!("desc={desc} limit={limit}: {e}"), show(&want), json!(null), st),
+                            Ok((pages_got, pages)) => {
+                                if pages > 1 {
+                                    st.multi_page += 1;
+                                }
+                                // inside a page consecutive rows of one transaction form ONE object
+                                if pages_got.iter().any(|pg| pg.windows(2).any(|w| w[0].0 == w[1].0)) {
+                                    report("gtxs-unmerged", Some(q), format!("group_by_transaction desc={desc} limit={limit}: two adjacent objects of one page carry the same transaction"), show(&want), json!(null), st);
+                                    break;
+                                }
+                                let mut got: Vec<CGTx> = pages_got.into_iter().flatten().collect();
+                                if desc {
+                                    // descending: objects and the cells inside them come in reverse key order
+                                    got.reverse();
+                                    for g in got.iter_mut() {
+                                        g.3.reverse();
+                                    }
+                                }
+                                // Everything in one page: exactly the runs of the specification (TxGrouped).  Several pages: a run
+                                // may be cut at a page boundary (the property is silent about grouping; with a filter the scan can stop
+                                // inside a run) - the rows, in order, are what the property fixes.
+                                let rows = |v: &Vec<CGTx>| -> Vec<CTx> { v.iter().flat_map(|(t, bn, ti, cells)| cells.iter().map(move |(io, ioi)| (t.clone(), *bn, *ti, *ioi, *io))).collect() };
+                                let bad = if pages <= 1 { got != want } else { rows(&got) != rows(&want) };
+                                if bad {
+                                    report("gtxs", Some(q), format!("get_transactions group_by_transaction desc={desc} limit={limit} pages={pages}"), show(&want), show(&got), st);
+                                    break;
+                                }
+                            }
+                        }
+                    }
                 }
             }
         }
@@ -507,7 +603,7 @@ fn flush(out: &mut Vec<Value>) {
 // -------------------------------------------------------------------------------------------------
 fn direct(inp: &Input) {
     let w = world(inp);
-    let mut st = Stats { queries: 0, calls: 0, multi_page: 0, prefix_hits: 0, nonempty: 0, mismatches: 0 };
+    let mut st = Stats { queries: 0, calls: 0, multi_page: 0, prefix_hits: 0, nonempty: 0, mismatches: 0, grouped: 0, grouped_multi: 0 };
     let (mut steps, mut appends, mut rollbacks, mut deep, mut hists) = (0u64, 0u64, 0u64, 0u64, 0u64);
     let mut out = vec![];
     for hist in &inp.hists {
@@ -568,7 +664,7 @@ fn direct(inp: &Input) {
         drop(vi);
     }
     println!("{}", json!({"summary": {"mode": "direct", "histories": hists, "steps": steps, "appends": appends, "rollbacks": rollbacks, "rollbacks_deeper_than_1": deep,
-        "queries": st.queries, "calls": st.calls, "multi_page": st.multi_page, "prefix_hits": st.prefix_hits, "nonempty": st.nonempty, "mismatches": st.mismatches}}));
+        "queries": st.queries, "calls": st.calls, "multi_page": st.multi_page, "prefix_hits": st.prefix_hits, "nonempty": st.nonempty, "grouped": st.grouped, "grouped_multi": st.grouped_multi, "mismatches": st.mismatches}}));
 }
 
 // -------------------------------------------------------------------------------------------------
@@ -584,7 +680,7 @@ fn process_sw(n: &Node, b: &BlockView) -> Result<bool, String> {
 fn service(inp: &Input) {
     let w = world(inp);
     let c = &w.consensus;
-    let mut st = Stats { queries: 0, calls: 0, multi_page: 0, prefix_hits: 0, nonempty: 0, mismatches: 0 };
+    let mut st = Stats { queries: 0, calls: 0, multi_page: 0, prefix_hits: 0, nonempty: 0, mismatches: 0, grouped: 0, grouped_multi: 0 };
     let (mut steps, mut reorgs, mut deep, mut hists, mut max_depth) = (0u64, 0u64, 0u64, 0u64, 0u64);
     let mut out = vec![];
     let mut tool_errors: Vec<String> = vec![];
@@ -744,7 +840,7 @@ fn service(inp: &Input) {
         println!("{}", json!({"tool_error": e}));
     }
     println!("{}", json!({"summary": {"mode": "service", "histories": hists, "steps": steps, "reorgs": reorgs, "rollbacks_deeper_than_1": deep, "max_reorg_depth": max_depth,
-        "queries": st.queries, "calls": st.calls, "multi_page": st.multi_page, "prefix_hits": st.prefix_hits, "nonempty": st.nonempty, "mismatches": st.mismatches, "tool_errors": tool_errors.len(), "slow_drops": slow_drops, "wait_ms": wait_ms, "drop_ms": drop_ms, "wall_ms": t_all.elapsed().as_millis() as u64}}));
+        "queries": st.queries, "calls": st.calls, "multi_page": st.multi_page, "prefix_hits": st.prefix_hits, "nonempty": st.nonempty, "grouped": st.grouped, "grouped_multi": st.grouped_multi, "mismatches": st.mismatches, "tool_errors": tool_errors.len(), "slow_drops": slow_drops, "wait_ms": wait_ms, "drop_ms": drop_ms, "wall_ms": t_all.elapsed().as_millis() as u64}}));
 }
 
 fn main() {
